@@ -34,6 +34,9 @@ def _freeze(v):
 
 
 def run(ctx, model):
+    from . import signatures as _sig
+    _n_sig = _sig.check(ctx, model, "R-SIGNATURE", lambda k: k.startswith('pregex.core.pre:Pregex.') and any(x in k.split('.')[-1] for x in ('match', 'capture', 'replace', 'split')) and k.split('.')[-1] not in ('capture', 'match_at_start', 'match_at_end', 'match_at_line_start', 'match_at_line_end'))
+    ctx.floor("R-SIGNATURE", _n_sig, 1, "public entry points")
     ctx.explanation = (
         "Every method of Pregex that has an `is_path` parameter (19 public ones on the pinned tree, discovered from the "
         "signatures) is walked twice by the abstract interpreter over the abstract `re` layer: once with the path "
